@@ -53,7 +53,6 @@ const (
 	c39TORSet
 	c39TORMapGC
 	c39TORMapSet
-	c39NTypes
 )
 
 var c39TypeNames = [...]string{"gcounter", "pncounter", "flag", "lww", "mv", "orset", "ormap_gc", "ormap_set"}
@@ -155,9 +154,9 @@ type c39Model struct {
 	ts       int64
 	node     string
 	val      int
-	adds     map[c39Dot]int        // dot -> element / key / register value index
-	tomb     map[c39Dot]struct{}   // removed / superseded dots
-	kv       map[c39Dot][3]uint64  // ormap_gc: counter value stored by the put that created the dot
+	adds     map[c39Dot]int       // dot -> element / key / register value index
+	tomb     map[c39Dot]struct{}  // removed / superseded dots
+	kv       map[c39Dot][3]uint64 // ormap_gc: counter value stored by the put that created the dot
 }
 
 func c39NewModel() *c39Model {
@@ -198,36 +197,6 @@ func (m *c39Model) merge(o *c39Model) {
 	}
 }
 
-// alive returns element -> live dots.
-func (m *c39Model) alive() map[int][]c39Dot {
-	out := map[int][]c39Dot{}
-	for d, e := range m.adds {
-		if _, dead := m.tomb[d]; !dead {
-			out[e] = append(out[e], d)
-		}
-	}
-	return out
-}
-
-func (m *c39Model) counterOf(key int) [3]uint64 {
-	var v [3]uint64
-	for d, e := range m.adds {
-		if e != key {
-			continue
-		}
-		if _, dead := m.tomb[d]; dead {
-			continue
-		}
-		s := m.kv[d]
-		for i := 0; i < 3; i++ {
-			if s[i] > v[i] {
-				v[i] = s[i]
-			}
-		}
-	}
-	return v
-}
-
 // ---- observation of real values ------------------------------------------------------
 
 func c39Any(v any) string { return fmt.Sprintf("%T:%v", v, v) }
@@ -246,16 +215,6 @@ func c39Slots(state map[string]uint64) string {
 	}
 	return b.String()
 }
-
-func c39SlotsModel(v [3]uint64) string {
-	m := map[string]uint64{}
-	for i, x := range v {
-		m[c39Nodes[i]] = x
-	}
-	return c39Slots(m)
-}
-
-func c39Sum(v [3]uint64) uint64 { return v[0] + v[1] + v[2] }
 
 func c39SetObs(s *ORSet) (string, string) {
 	els := s.Elements()
